@@ -87,26 +87,41 @@ impl<'a> RawMsg<'a> {
     /// For predefined messages, get u32s separately for convenience
     pub(crate) unsafe fn get_u32s(&self) -> Result<&'a [u32]> {
         use std::mem;
-        match self.typ {
-            create::CREATE => Ok(mem::transmute(&self.bytes[0..(4 * 6)])),
-            measure::MEASURE => Ok(mem::transmute(&self.bytes[0..8])),
-            update_field::UPDATE_FIELD => Ok(mem::transmute(&self.bytes[0..4])),
-            ready::READY => Ok(mem::transmute(&self.bytes[0..(4 * 1)])),
-            _ => Ok(&[]),
+        let n = match self.typ {
+            create::CREATE => 4 * 6,
+            measure::MEASURE => 8,
+            update_field::UPDATE_FIELD => 4,
+            ready::READY => 4,
+            _ => return Ok(&[]),
+        };
+        if self.bytes.len() < n {
+            return Err(super::Error(format!(
+                "message too short for type {}: {} < {}",
+                self.typ,
+                self.bytes.len(),
+                n
+            )));
         }
+        Ok(mem::transmute(&self.bytes[0..n]))
     }
 
     /// For predefined messages, bytes blob is whatever's left (may be nothing)
     /// For other message types, just return the bytes blob
     pub fn get_bytes(&self) -> Result<&'a [u8]> {
-        match self.typ {
-            create::CREATE => Ok(&self.bytes[(4 * 6)..(self.len as usize - HDR_LENGTH as usize)]),
-            measure::MEASURE => Ok(&self.bytes[8..(self.len as usize - HDR_LENGTH as usize)]),
-            update_field::UPDATE_FIELD => {
-                Ok(&self.bytes[4..(self.len as usize - HDR_LENGTH as usize)])
-            }
-            _ => Ok(self.bytes),
-        }
+        let start = match self.typ {
+            create::CREATE => 4 * 6,
+            measure::MEASURE => 8,
+            update_field::UPDATE_FIELD => 4,
+            _ => return Ok(self.bytes),
+        };
+        self.bytes.get(start..).ok_or_else(|| {
+            super::Error(format!(
+                "message too short for type {}: {} < {}",
+                self.typ,
+                self.bytes.len(),
+                start
+            ))
+        })
     }
 }
 
